@@ -307,16 +307,20 @@ class ConvolvedFluxes(object):
         # Interpolate to requested apertures
         if self.n_ap > 1:
 
+            # (the tabulated apertures in double precision, also when the file
+            # stores them in single precision: the limits would otherwise be
+            # rounded when they are converted to the unit of the request, and
+            # the interpolation would be done in single precision)
+            tabulated = self.apertures.astype(float)
+
             # If any apertures are larger than the defined max, reset to max
-            if np.any(c.apertures > self.apertures.max()):
-                c.apertures[c.apertures > self.apertures.max()] = self.apertures.max()
+            if np.any(c.apertures > tabulated.max()):
+                c.apertures[c.apertures > tabulated.max()] = tabulated.max()
 
             # If any apertures are smaller than the defined min, raise error
             # (an aperture that equals the smallest one up to rounding, e.g.
             # from a log-spaced distance grid, is not too small)
-            # (in double precision: for a table stored in single precision the
-            # factor would round to 1)
-            if np.any(c.apertures < self.apertures.min().astype(float) * (1. - 1.e-10)):
+            if np.any(c.apertures < tabulated.min() * (1. - 1.e-10)):
                 raise Exception("Aperture(s) requested too small")
 
             # Note that we have to be careful here because interp1d will drop
@@ -326,14 +330,14 @@ class ConvolvedFluxes(object):
 
             # Converting the requested apertures to the units of the tabulated
             # ones can land one ulp outside the table after the checks above
-            x_new = np.clip(c.apertures.to(self.apertures.unit).value,
-                            self.apertures.value.min(), self.apertures.value.max())
+            x_new = np.clip(c.apertures.to(tabulated.unit).value,
+                            tabulated.value.min(), tabulated.value.max())
 
-            flux_interp = interp1d(self.apertures, self.flux)
+            flux_interp = interp1d(tabulated.value, self.flux)
             c.flux = flux_interp(x_new) * self.flux.unit
 
             # The following is not strictly correct - errors from interpolation is not interpolation of errors
-            error_interp = interp1d(self.apertures, self.error)
+            error_interp = interp1d(tabulated.value, self.error)
             c.error = error_interp(x_new) * self.error.unit
 
         else:
